@@ -234,7 +234,7 @@ func runC04(c *Ctx) {
 					for _, r2 := range refs(bo) {
 						if ifi, ok := r2.(*ssa.If); ok {
 							for _, in := range ifi.Block().Succs[0].Instrs {
-								if ret, ok := in.(*ssa.Return); ok && len(ret.Results) == 1 && sameThroughSpill(unspill(ret, 0), match[0].Instr.(ssa.Value)) {
+								if ret, ok := in.(*ssa.Return); ok && isReturn(in) && len(ret.Results) == 1 && sameThroughSpill(unspill(ret, 0), match[0].Instr.(ssa.Value)) {
 									okFirst = true
 								}
 							}
@@ -804,7 +804,7 @@ func c04Precedence(c *Ctx, fn *ssa.Function) {
 						for _, r := range refs(bo) {
 							if ifi, ok := r.(*ssa.If); ok {
 								for _, x := range ifi.Block().Succs[0].Instrs {
-									if ret, ok := x.(*ssa.Return); ok {
+									if ret, ok := x.(*ssa.Return); ok && isReturn(x) {
 										if _, f3, _, ok := loadedField(unspill(ret, 0)); ok && f3 == "index" {
 											okRet = true
 										}
